@@ -329,7 +329,7 @@ CHECKS["C13"] = {
               "(number, peer), numbers are in range and one per peer; payloads on the wire equal the bytes given to WriteTo; ReadFrom returns "
               "a subsequence (complete while the queue bound is not exceeded) of what was relayed with the right peer address; deadlines and "
               "Close unblock readers; the inbound path never stays blocked (nothing left in front of HandleInbound at quiescence)."),
-    "level_note": "Trusted: simnet, the scripted server (harness/cliworld/c13_test.go), testing/synctest. Channel-number uniqueness is explored for up to 6 peers per case here (the 16384-peer sweep of the quantifier is not run).",
+    "level_note": "Trusted: simnet, the scripted server (harness/cliworld/c13_test.go), testing/synctest. Channel-number uniqueness is swept over 600 distinct peers in the quick tier and over all 16384 in the thorough tier, with a server that accepts every request.",
     "technique": "stateful property-based testing under virtual time: rapid-generated application call sequences and scripted server reactions, ordered wire-log oracle at the scripted server",
     "rule": "non-trivial = >= 2 peers, at least one non-success server reaction, data written both before and after a binding was confirmed (UDP cases); every ConnectionAttempt burst case (TCP cases); distinct by hash",
     "assumptions": [],
